@@ -26,6 +26,11 @@ partial def loop (h : IO.FS.Stream) (s : Comp) (sros : List (Nat × List Nat)) :
   | ["unregS", c, req, p] => let r := unregisterSubscriptionAdapter s (comp c) (nums req) p.toNat!; IO.println (out r); loop h r.1 sros
   | ["regH", c, req] => let r := registerHandler s (comp c).get! (nums req) "i"; IO.println (out r); loop h r.1 sros
   | ["unregH", c, req] => let r := unregisterHandler s (comp c) (nums req); IO.println (out r); loop h r.1 sros
+  -- the history's `Components` is of the picklable kind: its two registries are (picklable) verifying adapter registries
+  | ["persist"] => IO.println "ok"; loop h { s with w := { s.w with verifying := true } } sros
+  -- pickle round trip: the volatile counter cache and the lookup objects are rebuilt from what was pickled
+  | ["reload"] => IO.println "ok"; loop h (reload s) sros
+  | ["reinit"] => IO.println "ok"; loop h (reinit s) sros
   | ["listU"] =>
       IO.println (" ".intercalate (s.utilRegs.map fun e => s!"{e.1.1}/{e.1.2}={e.2.1.v.ident}/{e.2.2}")); loop h s sros
   | ["listA"] =>
